@@ -144,6 +144,38 @@ def run(ctx):
                 real = UL.canon_real_incoming(UL.real_incoming(rdg, creds))
                 reqs.append(mreq)
                 impls.append(("incoming", {**case, "response": rdg.hex()}, real))
+    # credentials with a privacy pass-phrase but no authentication key (no such security level):
+    # whatever the client does, the scoped PDU must not leave in clear
+    for i in range(ctx.budget(12, 120)):
+        secret = bytes(rng.randrange(256) for _ in range(16))
+        privpw = rng.choice(pool)[1]
+        engine_id = b"\x80\x00\x1f\x88" + bytes(rng.randrange(256) for _ in range(8))
+        creds = V3("nopw", None, Priv(privpw, "verifstream"))
+        v3 = RA.V3Config(engine_id=engine_id)
+        v3.users[b"nopw"] = {"auth": None, "priv": None}
+        agent = RA.Agent(db=[((1, 3, 6, 1, 2, 1, 1, 1, 0), ["str", "616263"])], v3=v3)
+        seam = Seam(agent)
+        client = Client("127.0.0.1", creds, sender=seam)
+        try:
+            if i % 2:
+                W.run(client.set(RA.OID([1, 3, 6, 1, 4, 1, 99, 1, 0]), RA.make_value(["str", secret.hex()])))
+            else:
+                c2 = Client("127.0.0.1", V3("nopw"), sender=seam)
+                with c2.reconfigure(credentials=creds):
+                    W.run(c2.set(RA.OID([1, 3, 6, 1, 4, 1, 99, 1, 0]), RA.make_value(["str", secret.hex()])))
+        except Exception:  # noqa: BLE001 - refusing is fine
+            pass
+        res.evaluations += 1
+        res.count("priv-without-auth")
+        for dg in seam.datagrams:
+            try:
+                m = B.parse_message(dg)
+            except Exception:  # noqa: BLE001
+                continue
+            if m.get("engine_id") == b"":
+                continue
+            if secret in dg or "scoped" in m:
+                res.violate("wire", {"credentials": "priv without auth", "datagram": dg.hex()}, "ciphertext or no request at all", "plaintext scoped PDU", "the scoped PDU left in clear for credentials carrying a privacy pass-phrase", {"kind": "priv", "what": "plaintext-on-the-wire"})
     if ctx.driver_ok:
         for (suite, case, got), ans in zip(impls, run_driver(reqs)):
             res.case(suite, case)
